@@ -34,7 +34,19 @@ type Obs struct {
 
 var locRe = regexp.MustCompile(`rules\.go:[0-9]+`)
 
-func loadObs(fset *token.FileSet, src []byte) (*ruleguard.Engine, Obs) {
+const importFlake = "could not import github.com/quasilyte/go-ruleguard/dsl"
+
+func loadObs(fset *token.FileSet, src []byte) (e *ruleguard.Engine, o Obs) {
+	for try := 0; try < 4; try++ {
+		e, o = loadObs1(fset, src)
+		if !strings.Contains(o.Err, importFlake) {
+			break
+		}
+	}
+	return e, o
+}
+
+func loadObs1(fset *token.FileSet, src []byte) (*ruleguard.Engine, Obs) {
 	type res struct {
 		e *ruleguard.Engine
 		o Obs
@@ -67,27 +79,27 @@ func loadObs(fset *token.FileSet, src []byte) (*ruleguard.Engine, Obs) {
 // ------------------------------------------------------------------ stream "dsl": abstract rules
 
 type Alt struct {
-	Src   string   `json:"src"`
-	OK    bool     `json:"ok"`   // gogrep / regexp accept it
-	Tag   int      `json:"tag"`  // root tag (syntax patterns)
-	Vars  []string `json:"vars"` // variables it binds
+	Src  string   `json:"src"`
+	OK   bool     `json:"ok"`   // gogrep / regexp accept it
+	Tag  int      `json:"tag"`  // root tag (syntax patterns)
+	Vars []string `json:"vars"` // variables it binds
 }
 
 type Atom struct {
 	Src  string   `json:"src"`
-	Vars []string `json:"vars"`           // variables the atom refers to ("$$" included)
-	Chk  string   `json:"chk,omitempty"`  // kind | object | tag | version | "" : which name table the argument is checked against
+	Vars []string `json:"vars"`          // variables the atom refers to ("$$" included)
+	Chk  string   `json:"chk,omitempty"` // kind | object | tag | version | "" : which name table the argument is checked against
 	Arg  string   `json:"arg,omitempty"`
 }
 
 type RuleDesc struct {
-	Comment bool     `json:"comment"`
-	Alts    []Alt    `json:"alts"`
-	Atoms   []Atom   `json:"atoms"`
-	Where   string   `json:"where"`
-	At      string   `json:"at"`
-	Report  string   `json:"report"`
-	Suggest string   `json:"suggest"`
+	Comment bool   `json:"comment"`
+	Alts    []Alt  `json:"alts"`
+	Atoms   []Atom `json:"atoms"`
+	Where   string `json:"where"`
+	At      string `json:"at"`
+	Report  string `json:"report"`
+	Suggest string `json:"suggest"`
 }
 
 var synPats = []string{
@@ -428,7 +440,7 @@ type Case struct {
 	Src    string    `json:"src,omitempty"`
 	Rule   *RuleDesc `json:"rule,omitempty"`
 	Obs    Obs       `json:"obs"`
-	Run    string    `json:"run,omitempty"`  // panic / error of Run on the probe file
+	Run    string    `json:"run,omitempty"` // panic / error of Run on the probe file
 	NilRep int       `json:"nil_reports"`
 	NRep   int       `json:"nrep"`
 }
